@@ -333,4 +333,29 @@ PROPS['C10'] = {
     'design_ref': 'DESIGN.md section 5 C10',
 }
 
+PROPS['C14'] = {
+    'modules': ['contracts.fs_format', 'contracts.serialize_refs', 'contracts.conflict'],
+    'lemmas': [],
+    'level': 'other',
+    'explanation': 'proved: the classification loops of referencesf/get_refs over every reference spelling of '
+                   'serialize.py and the constructor of the conflict-resolution reference for the same spellings; '
+                   'bounded (labelled): round trips of random object graphs through the real pickler',
+    'bounded': [
+        {'func': 'ZODB.serialize:<object-graphs>',
+         'bound': '3 fixed + 60 (thorough: 600) random graphs of <=7 persistent nodes (sharing, cycles, list/dict/tuple '
+                  'nesting, __getnewargs__ classes, weak references before/after the strong one, cross-database '
+                  'reference, unreachable object); stored iff reachable, referencesf(record) == ordinary references with '
+                  'multiplicity, no dangling reference, isomorphic load with one object per oid'},
+    ],
+    'text': 'Mixed level (not claimed as proof of the whole statement): PROVED by generated VCs - referencesf and '
+            'get_refs append an oid (str oids encoded back to bytes, class info kept or None) for exactly the ordinary '
+            'spellings `oid` and `(oid, class)` in pickle order and for none of the weak / multi-database list forms, '
+            'appending to a list passed in; PersistentReference decodes every spelling. BOUNDED only - the first '
+            'sentence of the property (graph round trip through zodbpickle, ObjectWriter.persistent_id, ObjectReader '
+            'loaders, broken classes): random graphs through the real code.',
+    'note': 'Everything inside zodbpickle and persistent (C code) is outside; A-NOLOAD assumed. persistent_id and the '
+            'loaders are NOT under contract (reflection over arbitrary objects) - bounded stand-in only.',
+    'design_ref': 'DESIGN.md section 5 C14',
+}
+
 NOT_YET = {}
